@@ -223,6 +223,28 @@ PROGRAMS = [
         ["assign", "x", ["v", "<dt>"], []],
         ["assign", "w", ["v", "x"], []],
     ]}},
+    # widening (real -> complex, scalar -> array) followed by a dependency chain
+    {"name": "widen_complex_chain", "phases": {"p": [
+        ["assign", "x", ["c", 1], []],
+        ["assign", "x", ["c", "cplx:1j"], []],
+        ["assign", "y", ["v", "x"], []],
+        ["assign", "z", ["v", "y"], []],
+    ]}},
+    {"name": "widen_array_chain", "phases": {"p": [
+        ["assign", "x", ["v", "<dt>"], []],
+        ["assign", "x", ["call", "<builtin>array", [["c", 2]], {}], []],
+        ["assign", "y", ["+", ["v", "x"], ["c", 1]], []],
+        ["assign", "z", ["*", ["v", "y"], ["c", 2]], []],
+        ["assign", "w", ["v", "z"], []],
+    ]}},
+    {"name": "widen_global_two_phases_chain", "phases": {"p": [
+        ["assign", "<p>x", ["c", 1], []],
+        ["assign", "y", ["v", "<p>x"], []],
+        ["assign", "<p>z", ["v", "y"], []],
+    ], "q": [
+        ["assign", "<p>x", ["c", "cplx:1j"], []],
+        ["assign", "w", ["v", "<p>z"], []],
+    ]}},
     {"name": "chain", "phases": {"p": [
         ["assign", "d", ["+", ["v", "c"], ["c", 1]], []],
         ["assign", "c", ["+", ["v", "b"], ["c", 1]], []],
@@ -354,9 +376,15 @@ def random_program(rng, idx):
         tgt = rng.choice(names[:5])
         r = rng.random()
         srcs = sorted(pool)
-        if r < 0.2:
+        if r < 0.12:
             stmts.append(["assign", tgt, ["call", "<builtin>array", [["c", 2]], {}], []])
             pool[tgt] = "A"
+        elif r < 0.2:
+            stmts.append(["assign", tgt, ["c", "cplx:1j"], []])
+            pool[tgt] = "C"
+        elif r < 0.3 and len(pool) > 3:
+            stmts.append(["assign", tgt, ["v", rng.choice(srcs)], []])
+            pool[tgt] = "?"
         elif r < 0.4:
             stmts.append(["assign", tgt, ["v", "i"], [["i", ["c", 0], ["c", 2]]]])
             pool[tgt] = "I"
